@@ -122,8 +122,8 @@ static int cmp_problem (const RefLP * G, const RefLP * M, const CmpOpt * o, char
 }
 
 /* ====================================================================== feature deviations (family wr) */
-static const char *NAMES[] = { "x9", "2x", ".x", "a^b", "a b", "a:b", "st", "end", "free", "inf", "e1", "c1", "obj", "@LONG" };
-#define NNAMES 14
+static const char *NAMES[] = { "x9", "2x", ".x", "a^b", "a b", "a:b", "st", "end", "free", "inf", "e1", "c1", "obj", "@LONG", "freeze", "infinite", "endx" };
+#define NNAMES 17
 enum { D_ROWKIND, D_BOUND, D_COEF, D_RHS, D_OBJ, D_MAX, D_INT, D_CNAME, D_RNAME, D_EXTRACOL, D_EXTRAROW, D_EMPTYROW, D_WIDE, D_TARGET, D_ROUTE };
 typedef struct { int axis, target, val; } Dev;
 static Dev devs[200]; static int ndev;
@@ -149,6 +149,8 @@ static void build_devs (void)
 	for (int v = 0; v < 2; v++) ADD (D_ROUTE, 0, v);
 	/* bounds that end exactly at zero (the writers treat a zero bound as the default in several places) */
 	for (int c = 0; c < 2; c++) for (int v = 8; v < 11; v++) ADD (D_BOUND, c, v);
+	/* a right-hand side of 5001 digits: the written line is longer than any fixed I/O buffer */
+	ADD (D_RHS, 0, 4);
 #undef ADD
 }
 static long choose (int n, int k) { if (k < 0 || k > n) return 0; long r = 1; for (int i = 1; i <= k; i++) r = r * (n - k + i) / i; return r; }
@@ -220,7 +222,10 @@ static int apply_devs (RefLP * M, const int *set, int k, int *target, SBuf * des
 			}
 			sb_printf (desc, "bound%d:shape%d ", d.target, d.val); break;
 		case D_COEF: Qs (REF_A (M, d.target, d.target), coefv[d.val]); sb_printf (desc, "A[%d][%d]=%s ", d.target, d.target, coefv[d.val]); break;
-		case D_RHS: Qs (M->rhs[d.target], rhsv[d.val]); sb_printf (desc, "rhs%d=%s ", d.target, rhsv[d.val]); break;
+		case D_RHS:
+			if (d.val == 4) { mpz_ui_pow_ui (mpq_numref (M->rhs[d.target]), 10, 5000); mpz_add_ui (mpq_numref (M->rhs[d.target]), mpq_numref (M->rhs[d.target]), 1); mpz_set_ui (mpq_denref (M->rhs[d.target]), 1); sb_printf (desc, "rhs%d=10^5000+1 ", d.target); }
+			else { Qs (M->rhs[d.target], rhsv[d.val]); sb_printf (desc, "rhs%d=%s ", d.target, rhsv[d.val]); }
+			break;
 		case D_OBJ: Qs (M->obj[d.target], objv[d.val]); sb_printf (desc, "obj%d=%s ", d.target, objv[d.val]); break;
 		case D_MAX: M->objsense = REF_MAX; sb_printf (desc, "max "); break;
 		case D_INT: M->isint[d.target] = 1; sb_printf (desc, "int%d ", d.target); break;
